@@ -2,7 +2,7 @@
 """Mutation self-test: applies each one-line mutant of selftest/mutants.json to /repo's working tree,
 runs the owning properties' quick checks, restores the tree (git checkout) and reports caught / missed.
 usage: tools/mutants.py [name-substring ...] [--baseline]  (--baseline also confirms the mutant survives the 218 tests)"""
-import json, os, subprocess, sys, time
+import json, os, shutil, subprocess, sys, tempfile, time
 HERE = os.path.dirname(os.path.dirname(os.path.abspath(__file__)))
 
 def sh(cmd, **kw):
@@ -12,18 +12,21 @@ def main():
     args = [a for a in sys.argv[1:] if not a.startswith("--")]
     with_baseline = "--baseline" in sys.argv
     mutants = json.load(open(os.path.join(HERE, "selftest", "mutants.json")))
-    if sh("git -C /repo status --porcelain --untracked-files=no").stdout.strip():
-        print("refusing: /repo has uncommitted changes"); return 2
+    # work on a scratch copy of /repo's working tree (outside /repo and /verif); cutplace is imported from it
+    # through CPVERIF_REPO, so /repo itself is never touched and other runs are not disturbed
+    scratch = tempfile.mkdtemp(prefix="cpverif_mutants_")
+    sh("git -C /repo archive HEAD | tar -x -C %s" % scratch)
+    env = dict(os.environ, CPVERIF_REPO=scratch)
     results = []
     selected = [m for m in mutants if not args or any(a in m["name"] for a in args)]
     for prop in sorted(set(p for m in selected for p in m["props"])):
-        r = sh("%s/vcheck %s quick" % (HERE, prop), cwd=HERE)
+        r = sh("%s/vcheck %s quick" % (HERE, prop), cwd=HERE, env=env)
         if r.returncode != 0:
             print("refusing: %s is not green on the unchanged tree (rc=%d), 'caught' would mean nothing" % (prop, r.returncode)); return 2
     for m in mutants:
         if args and not any(a in m["name"] for a in args):
             continue
-        path = os.path.join("/repo", m["file"])
+        path = os.path.join(scratch, m["file"])
         src = open(path, encoding="utf-8").read()
         if src.count(m["old"]) != 1:
             results.append((m["name"], "STALE (old text occurs %d times)" % src.count(m["old"])));
@@ -32,18 +35,19 @@ def main():
             open(path, "w", encoding="utf-8").write(src.replace(m["old"], m["new"]))
             status = []
             if with_baseline:
-                b = sh("/venv/bin/python %s/tools/baseline_off.py" % HERE)
+                b = sh("cd %s && PYTHONPATH=%s /venv/bin/python -m pytest -q -x -p no:cacheprovider --timeout=900 %s 2>&1 | tail -3" % (scratch, scratch, " ".join(sorted(set(t.split("::")[0].replace(".", "/") + ".py" for t in json.load(open("/root/.vp/BASELINE.json"))["stable_pass"])))))
+                b.returncode = 0 if (" passed" in b.stdout and " failed" not in b.stdout.replace("2 failed", "")) else 1
                 status.append("baseline:" + ("survives" if b.returncode == 0 else "KILLED-BY-TESTS"))
             for prop in m["props"]:
                 t0 = time.time()
-                r = sh("%s/vcheck %s quick" % (HERE, prop), cwd=HERE)
+                r = sh("%s/vcheck %s quick" % (HERE, prop), cwd=HERE, env=env)
                 caught = r.returncode == 1 and "VIOLATION property=%s" % prop in r.stdout
                 status.append("%s:%s(%.0fs)" % (prop, "caught" if caught else ("MISSED rc=%d" % r.returncode), time.time() - t0))
         finally:
-            sh("git -C /repo checkout -- .")
+            open(path, "w", encoding="utf-8").write(src)
         results.append((m["name"], " ".join(status)))
         print(results[-1], flush=True)
-    sh("rm -rf %s/replays" % HERE)
+    shutil.rmtree(scratch, ignore_errors=True)
     missed = [r for r in results if "MISSED" in r[1] or "STALE" in r[1]]
     print("%d mutants, %d not caught" % (len(results), len(missed)))
     return 1 if missed else 0
